@@ -51,6 +51,11 @@ CHECKS.update({
    text="All histories over 10 packets + Reset to depth 6 (thorough 8) are explored per predicate with deduplication on private state + bytes + packets; after every call Bytes(), Packets(), the predicate's argument, error class, input immutability and aliasing probes are compared with a list model, and Reset must reproduce the canonical state of a new accumulator; long accumulations (up to 40/400 continuation packets) cover sizes beyond the BFS depth.",
    note="Not asserted: whether a refused no-payload packet appears in Packets(), whether a packet whose predicate evaluation failed counts as accepted, the returned byte count.", design="3/C17"),
 })
+CHECKS.update({
+ "C10": dict(engine="bfs", technique="explicit-state BFS over ProcessDescriptor/Close/Open histories on the live tracker with canonical-state dedup (private state via hook), every transition judged by an identity-based monitor of the property's clauses",
+   text="All histories over four alphabets (wide: 14-39 types x event ids x PTS incl. none, closes by value, same-object repeat, depth 3; focused and position-distinct-PTS alphabets to depth 4-6) are executed on the real tracker; after every call a monitor compares the private open list before/after (object identities), the returned closed list (membership, uniqueness, order, closability under the frozen rule table / equality), the public Open() result, and the rejection clauses for repeated and PTS-less descriptors.",
+   note="Uses the verif-tagged hook scte35.VerifDumpState; which descriptor types get opened, error values other than the duplicate error, and the choice among several equal descriptors in Close are not asserted.", design="3/C10"),
+})
 NOT_APPLICABLE = {}
 def main():
     props=[json.loads(l)['id'] for l in open('/verif/properties.jsonl')]
@@ -71,5 +76,5 @@ def main():
       checks=checks, not_applicable=na,
       notes="gots is sequential: model checking here is bounded-exhaustive enumeration of inputs, operation histories and environment answers on the real code against reference models (DESIGN.md).")
     json.dump(m, open('/verif/MANIFEST.json','w'), indent=1)
-HOOK_COMMITS=[]
+HOOK_COMMITS=['c25f19c']
 main()
